@@ -607,7 +607,7 @@ namespace pbt
     bool shrinking = false;
     std::vector<uint16_t> last_fail;
     Outcome last_fail_outcome;
-    long shrink_steps = 0;
+    long shrink_steps = 0, foreign_tapes = 0;
     auto t0 = clk::now();
     clk::time_point shrink_start;
     const double shrink_budget_s = atof(opt.get("shrink_s", "90").c_str());
@@ -640,6 +640,16 @@ namespace pbt
       if (!shrinking)
       {
         account(stats, o);
+        if (!o.res.foreign.empty() && foreign_tapes < 3 && !fail)
+        { // a failure of another property's oracle is only counted here, but its tape is kept so that it can be looked at
+          ++foreign_tapes;
+          std::ostringstream nm;
+          nm << replay_dir << "/" << opt.prop << "-foreign-" << std::hex << fnv(tape_str(tape) + opt.sub) << ".tape";
+          Outcome fo = o;
+          fo.kind = Kind::VIOLATION;
+          fo.res.message = "(foreign) " + o.res.foreign.front();
+          write_replay(nm.str(), tape, opt, fo);
+        }
         if (fail)
         {
           shrinking = true;
